@@ -216,7 +216,7 @@ def chains(depth, max_trans=1):
 def run(run):
     thorough = run.tier == "thorough"
     depth = 3 if thorough else 2
-    cases = [{"base": b, "chain": c, "maxq": 4} for b in BASES for c in chains(depth)]
+    cases = [{"base": b, "chain": c, "maxq": 5 if depth == 2 or len(c) <= 2 else 4} for b in BASES for c in chains(depth)]
     secs = [Section("chains", cases, chain_case, horizon=60, chunk=8, desc="all modifier chains of depth <= %d with at most one transcendental modifier over %d bases" % (depth, len(BASES)))]
     # transcendental on transcendental: the representative chains of D18/D19 in quick, all 180 depth-2 pairs in thorough
     if thorough:
